@@ -1829,6 +1829,18 @@ async fn gen_c05(w: &mut World, g: &mut Gen, heights: usize) {
             blocks.push(b);
             if r + 1 < rounds {
                 // an undecided round: some validators see the proposal, some do not
+                if g.rng.chance(30) {
+                    // the proposer first sees a malformed copy of its own proposal (fingerprint
+                    // mismatch is remembered although the parse fails)
+                    let m = g.blk();
+                    let kind = *g.rng.pick(&["drop0", "Efirst", "swaproots"]);
+                    let r = w
+                        .run(&format!("abci mutate b=b{m} from=b{b} k={kind} x=0"))
+                        .await;
+                    if r.starts_with("ok") {
+                        w.run(&format!("abci process i={proposer} b=b{m}")).await;
+                    }
+                }
                 for i in 0..K {
                     if i != proposer && g.rng.chance(50) {
                         w.run(&format!("abci process i={i} b=b{b}")).await;
@@ -1857,6 +1869,22 @@ async fn gen_c05(w: &mut World, g: &mut Gen, heights: usize) {
         let Some(&decided) = blocks.last() else {
             continue;
         };
+        // occasionally the decided block is one no honest proposer would build (a replayed
+        // transaction): every node rejects it in ProcessProposal, FinalizeBlock ignores the
+        // failing transaction on every path
+        let mut decided = decided;
+        if g.rng.chance(8) {
+            let m = g.blk();
+            let r = w
+                .run(&format!("abci mutate b=b{m} from=b{decided} k=dup x={}", g.rng.below(64)))
+                .await;
+            if r.starts_with("ok") {
+                decided = m;
+                for slot in prepared_by.iter_mut() {
+                    *slot = None;
+                }
+            }
+        }
         // per-instance paths to the decided block
         for i in 0..K {
             if i == final_proposer && prepared_by[i] == Some(decided) {
